@@ -494,6 +494,43 @@ def purity_clause(model, rep, funcs):
                stmt=(None if effs else f"def {name} pure"))
 
 
+def helper_column_clause(model, rep):
+    """TMPCOL.  A helper column that a Molecules method adds next to the user's feature columns (`expr.alias(name)` then `with_columns`) must have a name no user
+    feature carries: polars replaces an existing column of that name, so the user's feature would be overwritten (and dropped with the helper afterwards).  A fixed
+    name therefore needs a freshness guard on the frame's columns (a `while name in ....columns` loop, or a rejecting test)."""
+    n = 0
+    for fn in model.all_functions:
+        if not fn.module.relpath.startswith("acryo/molecules/") or fn.parent is not None:
+            continue
+        for c in ast.walk(fn.node):
+            if not (isinstance(c, ast.Call) and isinstance(c.func, ast.Attribute) and c.func.attr == "alias" and len(c.args) == 1):
+                continue
+            x = c.args[0]
+            fixed = isinstance(x, ast.Constant) and isinstance(x.value, str)
+            var = x.id if isinstance(x, ast.Name) else None
+            if var is not None:
+                defs = [st.value for st in ast.walk(fn.node) if isinstance(st, ast.Assign) and any(isinstance(t, ast.Name) and t.id == var for t in st.targets)]
+                fixed = any(isinstance(d, ast.Constant) and isinstance(d.value, str) for d in defs)
+                if var in fn.param_names():
+                    continue  # the caller chose the name
+            if not fixed:
+                continue
+            n += 1
+            rep.instance("TMPCOL", fn.loc(c))
+            guard = False
+            if var is not None:
+                for g in ast.walk(fn.node):
+                    if isinstance(g, (ast.While, ast.If)) and getattr(g, "lineno", 0) < getattr(c, "lineno", 0):
+                        t = norm_src(g.test)
+                        if var in t and ".columns" in t and (" in " in t):
+                            if isinstance(g, ast.While) or any(isinstance(y, ast.Raise) for st in g.body for y in ast.walk(st)):
+                                guard = True
+            rep.ob("TMPCOL", fn.anchor, "a helper column gets a name that no user feature carries (freshness loop / rejecting test on the frame's columns)", guard,
+                   f"`{norm_src(c)[:70]}` uses the fixed name {norm_src(x) if var is None else var + ' = ' + norm_src([d for d in defs if isinstance(d, ast.Constant)][0])}"
+                   f" without looking at the existing columns: a user feature of that name is overwritten", node=c, fn=fn, clause="features")
+    rep.floor("TMPCOL", 1, "(cutby adds the bin label next to the features)")
+
+
 def check(model, rep, tier):
     rep.decided += ["C12.1 one selector / one table for positions, orientations and features in every row-returning method; same operand order in concatenations",
                     "C12.2 _pos/_rotator/_features are written only by their owners", "C12.3 validation guards dominate the stores they protect",
@@ -504,4 +541,5 @@ def check(model, rep, tier):
     ownership_clause(model, rep, funcs)
     guards_clause(model, rep, funcs)
     purity_clause(model, rep, funcs)
+    helper_column_clause(model, rep)
     partition_clause(model, rep, {"acryo/loader/_group.py::LoaderGroupByIterator.__iter__": None})
